@@ -387,4 +387,23 @@ func c19CLI(w *Worker, c *c19Case, expectFail bool, libOut []byte, bad func(kind
 			bad("cli-output-not-at-the-given-path", fmt.Sprintf("`yaccgo generate -g doc/automaton.png ... in.y out.txt` exits 0 but out.txt does not hold the generated parser%s: %s", where, firstDiff(libOut, after2)))
 		}
 	}
+	// a file type the tool cannot generate (one its help text names, one it does not): either an error
+	// status with the existing file untouched, or a complete file - never "success" with the old file
+	if strings.HasPrefix(c.Origin, "whole:") && c.Variant == gen.Go {
+		for _, ft := range []string{"rust", "golang"} {
+			os.WriteFile(outp, []byte(sentinel), 0o644)
+			ctx3, cancel3 := context.WithTimeout(context.Background(), 120*time.Second)
+			cmd3 := evid.Guarded(ctx3, 60, dir, nil, nativeBin, "generate", ft, in, outp)
+			err3 := cmd3.Run()
+			cancel3()
+			w.Count("cli_runs_other_file_types", 1)
+			after3, _ := os.ReadFile(outp)
+			switch {
+			case err3 != nil && !bytes.Equal(after3, []byte(sentinel)):
+				bad("cli-file-damaged", fmt.Sprintf("`yaccgo generate %s` exited with an error but the existing output file changed", ft))
+			case err3 == nil && (c.Epilogue == "" || !strings.HasSuffix(string(after3), c.Epilogue) || bytes.Equal(after3, []byte(sentinel))):
+				bad("cli-success-without-output", fmt.Sprintf("`yaccgo generate %s in.y out.txt` exits 0 (success) but out.txt is not a generated file: %d bytes, the old content %v", ft, len(after3), bytes.Equal(after3, []byte(sentinel))))
+			}
+		}
+	}
 }
